@@ -19,7 +19,7 @@ from pyvc.theories import TypePreds, ConcreteStr
 from pyvc.th_lists import Lists, Val, VAL, fresh_list, V, as_list_sv
 from pyvc.th_tables import Tables, Key, KEY, fresh_table, wf, no_columns, nrows, column, same_table, key_of
 from pyvc.sv import SV, I, B, S, T, NONE, fresh_name, fresh_int
-from pyvc.th_tables2 import (Rows, Init, Concat, CNT, cnt_def, count_lemmas, fresh_rowlist, rows_of, mask_list, rowmap, fresh_colmap, as_table, CLS,
+from pyvc.th_tables2 import (Rows, Init, Concat, Slices, Deletes, PySlice, SLEN, SIDX, slice_axiom, CNT, cnt_def, count_lemmas, fresh_rowlist, rows_of, mask_list, rowmap, fresh_colmap, as_table, CLS,
                               equally_long, same_columns, records_contract, empty_with_columns_contract, mask_contract, MASK_CLAUSES)
 
 PROP = 'C01'
@@ -171,8 +171,9 @@ def mask_obligations(ctx, m):
     ex = Exec(m, [rows, Dictable(m), Tables(), Lists(), TypePreds(extra={'is_arr': ()})], loops={id(comp): spec}, inline=_inline(m), name='__getitem__.mask')
     holder['ex'] = ex
     st = State(env={'self': t})
-    pre = [wf(t, n), M == nrows(t, n), M >= 1]
+    pre = [wf(t, n), M == nrows(t, n), M >= 0]           # M == 0: the `len(item) == 0` branch (a table without rows, or the item [])
     st.pc += pre
+    ex.fact(cnt_def(marr, IntVal(0)))
     outs = ex.run_function(st, 'dictable.__getitem__', [t, item], {})
     ctx.absorb(ex)
     ctx.record_function(m, 'dictable.__getitem__', fdef, ex.stmts_executed,
@@ -194,6 +195,131 @@ def mask_obligations(ctx, m):
     count_lemmas(ctx, '__getitem__.mask')
     ctx.cover('__getitem__.mask.pre', pre + [n == 3, t.dom[key_of('a')], marr[0] == 1, marr[1] == 0, marr[2] == 1])
     ctx.cover('__getitem__.mask.nothing_kept_reachable', pre + [n == 2, t.dom[key_of('a')], marr[0] == 0, marr[1] == 0])
+
+
+# ====================================================================================================== __getitem__: slice, column name, tuple of names
+def _getitem_run(ctx, m, label, item, pre=(), loops=None):
+    fdef = m.func('dictable.__getitem__')
+    n = Int('N')
+    t = fresh_table('self')
+    ex = Exec(m, [Slices(), Init(), Rows(known=[(t, n)]), GetItem(), Dictable(m), Tables(), Lists(), TypePreds(extra={'is_arr': ()})], loops=loops or {},
+              inline=_inline(m), name='__getitem__.' + label)
+    st = State(env={'self': t})
+    st.pc += [wf(t, n)] + list(pre)
+    outs = ex.run_function(st, 'dictable.__getitem__', [t, item], {})
+    ctx.absorb(ex)
+    ctx.record_function(m, 'dictable.__getitem__', fdef, ex.stmts_executed)
+    return ex, t, n, outs
+
+
+def slice_obligations(ctx, m):
+    """d[a:b:c]: every column is cut by the same slice object; the indices a slice selects depend on the slice and the length only, and all columns have one
+    length, so row j of the result is row slice_index(s, N, j) of the table in every column: the table stays rectangular and equals the sliced list of rows."""
+    s = Const('SLICE', PySlice)
+    ex, t, n, outs = _getitem_run(ctx, m, 'slice', SV('pyslice', s))
+    c = Const('c!sl', Key)
+    j = Int('j!sl2')
+    nret = 0
+    for out in outs:
+        hy = ex.facts + out.st.pc
+        if out.kind != 'return':
+            ctx.post('__getitem__.slice.never_raises.%s' % out.val, hy, BoolVal(False), kind='safety')
+            continue
+        nret += 1
+        o = out.val
+        hy = hy + [slice_axiom(s, n)]          # axiom instance at the common length (a table without columns has no column to take it from)
+        ctx.post('__getitem__.slice.keeps_all_columns', hy, ForAll([c], o.dom[c] == t.dom[c]))
+        ctx.post('__getitem__.slice.rectangular_with_the_sliced_number_of_rows', hy, wf(o, SLEN(s, n)))
+        ctx.post('__getitem__.slice.row_j_is_the_same_table_row_in_every_column', hy,
+                 ForAll([c, j], Implies(And(t.dom[c], 0 <= j, j < SLEN(s, n)), And(0 <= SIDX(s, n, j), SIDX(s, n, j) < n, o.carr[c][j] == t.carr[c][SIDX(s, n, j)]))))
+    if nret == 0:
+        raise OutOfSubset('slice selection has no returning path')
+    ctx.cover('__getitem__.slice.pre', [wf(t, n), n == 3, t.dom[key_of('a')], SLEN(s, 3) == 2])
+
+
+def column_obligations(ctx, m):
+    """d[name]: the stored column when the name is a column, KeyError otherwise (the contract `GetItem` hands to callers)"""
+    k = Const('KEY', Key)
+    ex, t, n, outs = _getitem_run(ctx, m, 'column', KEY(k))
+    nret = nraise = 0
+    for out in outs:
+        hy = ex.facts + out.st.pc
+        if out.kind == 'raise':
+            nraise += 1
+            ctx.post('__getitem__.column.raises_only_KeyError_and_only_for_a_missing_column', hy, And(BoolVal(out.val == 'KeyError'), Not(t.dom[k])), kind='safety')
+            continue
+        nret += 1
+        r = as_list_sv(out.val, VAL)
+        ctx.post('__getitem__.column.is_the_stored_column', hy, And(t.dom[k], r.t == t.clen[k], r.arrs[0] == t.carr[k]))
+    if nret == 0 or nraise == 0:
+        raise OutOfSubset('column access: expected a returning and a raising path')
+
+
+def tuple_obligations(ctx, m):
+    """d[(name_1, ..., name_k)] for k = 1..3 column names: the list of the rows' key tuples, one per row, in row order - the key projection that
+    _listby (C02, C11) takes as its callee contract.  Key *functions* in the tuple (d[callable]) are not covered."""
+    for arity in (1, 2, 3):
+        ks = [Const('KEY%d' % i_, Key) for i_ in range(arity)]
+        ex, t, n, outs = _getitem_run(ctx, m, 'tuple%d' % arity, T([KEY(k_) for k_ in ks]))
+        j = Int('j!tp')
+        present = And(*[t.dom[k_] for k_ in ks])
+        nret = 0
+        for out in outs:
+            hy = ex.facts + out.st.pc
+            if out.kind == 'raise':
+                ctx.post('__getitem__.tuple%d.raises_only_KeyError_and_only_for_a_missing_column' % arity, hy, And(BoolVal(out.val == 'KeyError'), Not(present)), kind='safety')
+                continue
+            nret += 1
+            r = out.val
+            if r.kind != 'list' or r.f.get('ety') is None or len(r.arrs) != arity:
+                raise OutOfSubset('tuple projection does not return a list of %d-tuples' % arity)
+            ctx.post('__getitem__.tuple%d.one_key_tuple_per_row' % arity, hy, And(present, r.t == n))
+            ctx.post('__getitem__.tuple%d.jth_tuple_holds_the_jth_cells_of_the_named_columns' % arity, hy,
+                     ForAll([j], Implies(And(0 <= j, j < n), And(*[r.arrs[i_][j] == t.carr[ks[i_]][j] for i_ in range(arity)]))))
+        if nret == 0:
+            raise OutOfSubset('tuple projection has no returning path')
+
+
+# ====================================================================================================== deleting a column
+def delete_obligations(ctx, m):
+    """del d[name] (dictattr.__delitem__, inherited), del d.name (dictable.__delattr__) and d - name (dictattr.__sub__, inherited): the named column goes,
+    every other column is untouched, so the table stays rectangular; deleting a missing column raises KeyError (del) or is a no-op (-)."""
+    md = ctx.mod('_dictattr')
+    n = Int('N')
+    k = Const('KEY', Key)
+    c = Const('c!del', Key)
+
+    def others_untouched(a, b):
+        return ForAll([c], Implies(c != k, And(a.dom[c] == b.dom[c], a.clen[c] == b.clen[c], a.carr[c] == b.carr[c])))
+
+    runs = [('__delitem__', md, 'dictattr.__delitem__', 'dict', True), ('__delattr__', m, 'dictable.__delattr__', 'contract', True),
+            ('__sub__', md, 'dictattr.__sub__', 'contract', False)]
+    for label, mod_, qual, level, may_raise in runs:
+        fdef = mod_.func(qual)
+        t = fresh_table('self')
+        ex = Exec(mod_, [Deletes(level), Slices(), Tables(), Lists(), TypePreds()], inline={qual: (mod_, fdef)}, name=label)
+        st = State(env={'self': t})
+        st.pc.append(wf(t, n))
+        outs = ex.run_function(st, qual, [t, KEY(k)], {})
+        ctx.absorb(ex)
+        ctx.record_function(mod_, qual, fdef, ex.stmts_executed, excluded=['tuple paths, lists of names, dotted and underscore names: bounded only'])
+        nret = nraise = 0
+        for out in outs:
+            hy = ex.facts + out.st.pc
+            if out.kind == 'raise':
+                nraise += 1
+                ctx.post('%s.raises_only_KeyError_for_a_missing_column_and_leaves_the_table' % label, hy,
+                         And(BoolVal(out.val == 'KeyError' and may_raise), Not(t.dom[k]), same_table(out.st.env['self'], t)), kind='safety')
+                continue
+            nret += 1
+            r = out.st.env['self'] if may_raise else out.val
+            if r.kind != 'table':
+                raise OutOfSubset('%s does not yield a table' % label)
+            ctx.post('%s.the_named_column_is_gone' % label, hy, And(Not(r.dom[k]), t.dom[k]) if may_raise else Not(r.dom[k]))
+            ctx.post('%s.other_columns_untouched' % label, hy, others_untouched(r, t))
+            ctx.post('%s.table_stays_rectangular' % label, hy, wf(r, n))
+        if nret == 0 or (may_raise and nraise == 0):
+            raise OutOfSubset('%s: expected %s' % (label, 'a returning and a raising path' if may_raise else 'a returning path'))
 
 
 # ====================================================================================================== the constructor
@@ -405,6 +531,10 @@ def build(ctx):
     ctx.guarded('__getitem__.int', row_section)
     ctx.guarded('__iter__', lambda: iter_obligations(ctx, m))
     ctx.guarded('__getitem__.mask', lambda: mask_obligations(ctx, m))
+    ctx.guarded('__getitem__.slice', lambda: slice_obligations(ctx, m))
+    ctx.guarded('__getitem__.column', lambda: column_obligations(ctx, m))
+    ctx.guarded('__getitem__.tuple', lambda: tuple_obligations(ctx, m))
+    ctx.guarded('delete', lambda: delete_obligations(ctx, m))
     ctx.guarded('constructor', lambda: constructor_obligations(ctx, m))
     ctx.guarded('dict_concat', lambda: dict_concat_obligations(ctx, m))
     ctx.trust('rectangularity of tables produced by operations other than __setitem__ (constructor forms, masks, concat, ...) is checked by the bounded stand-in only')
